@@ -442,6 +442,9 @@ def judge(w, plan, kinds, speakers, hj, ht, render_log, planted, violations, pro
             if ln in ('done', 'error') or ln.startswith('error'):
                 continue
             probes['json_lines'] = probes.get('json_lines', 0) + 1
+            if ' object at 0x' in ln:
+                violations.append(viol('C13/unrendered-object', f'API v{version} {name} helper: a Python object was written instead of its rendering: {ln[:260]!r}', version=version))
+                return
             bad = check_json_line(ln, peers)
             if bad:
                 violations.append(viol('C13/json-' + bad[0], f'API v{version} {name} helper: {bad[1]} in: {ln[:260]}', version=version, what=bad[1][:50]))
